@@ -21,3 +21,14 @@
 (assert (forall ((a ByteArr) (b ByteArr) (s Slice) (c (_ BitVec 8)))
   (! (=> (and (>= (bidx$ a s c) 0) (agree8 a b s 0 (+ (bidx$ a s c) 1))) (= (bidx$ b s c) (bidx$ a s c)))
      :pattern ((bidx$ a s c) (bidx$ b s c)))))
+; holds a s t : the byte window s (contents a) spells exactly the string t
+; sig holds$ : ByteArr Slice Str -> Bool
+(declare-fun holds$ (ByteArr Slice Str) Bool)
+(assert (forall ((a ByteArr) (s Slice) (t Str))
+  (! (= (holds$ a s t) (and (= (sl.len s) (s_len t))
+        (forall ((j Int)) (! (=> (and (<= 0 j) (< j (sl.len s))) (= (el8 a s j) (s_at t j))) :pattern ((el8 a s j)) :pattern ((s_at t j))))))
+     :pattern ((holds$ a s t)))))
+; it depends only on the bytes of the window (immediate from the definition; stated so that it is found across memory versions)
+(assert (forall ((a ByteArr) (b ByteArr) (s Slice) (t Str))
+  (! (=> (and (holds$ a s t) (agree8 a b s 0 (sl.len s))) (holds$ b s t))
+     :pattern ((holds$ a s t) (holds$ b s t)))))
